@@ -234,7 +234,14 @@ def m_side(eng, st, callee, a, ty):
     leaf = eng.deref(a[1])
     vec = leaf.f[1]
     b = eng.fresh("side", z3.BoolSort())
-    st.env.setdefault("sides", []).append((vec.data.get("id") if isinstance(vec, Opaque) else None, b))
+    vid = vec.data.get("id") if isinstance(vec, Opaque) else None
+    if st.env.get("fixed_sides") == "parity" and vid is not None:
+        # stated restriction of some histories: odd ids answer Right, even ids Left at every split
+        c = z3.simplify(vid) if z3.is_expr(vid) else vid
+        k = c.as_long() if z3.is_expr(c) and z3.is_bv_value(c) else (c if isinstance(c, int) else None)
+        if k is not None:
+            b = z3.BoolVal(k % 2 == 1)
+    st.env.setdefault("sides", []).append((vid, b))
     n = eng.deref(a[0])
     while isinstance(n, Ref):
         n = eng.deref(n)
